@@ -14,7 +14,7 @@ CHECKS = {
     ),
     "C01": dict(
         category="exploration",
-        technique="runtime monitoring: crash monitor (panic hook per stage, child-process abort/hang attribution) over load->eval->emit of generated programs and kind-breaking mutants accepted by the checker; Miri stage in the thorough tier",
+        technique="runtime monitoring: crash monitor (panic hook per stage, child-process abort/hang attribution) over load->eval->emit of generated programs, kind-breaking mutants accepted by the checker, nesting families and the recursive declaration graphs of C09's generator; Miri stage in the thorough tier",
         text="Whatever the checker accepts out of G-wt programs, kind-breaking AST mutants, token/byte mutants, corpus programs and nesting families to depth 200 is evaluated and emitted in a worker process; a panic, abort, hang or unlocated error value is attributed to one input. Sampled, bounded depth and size.",
         note="Trusted: the worker pool's crash attribution; the watchdog only suspects, a hang needs a second, isolated 10x confirmation. Open finding (cross-module instantiation of under-constrained functions) is keyed by signature + trigger shape.",
         design="5/C01",
